@@ -111,6 +111,22 @@ add('C15',
     "discretize as named peer; tolerance 1e4 eps kappa (kappa accounts for "
     "rounding of float node coordinates; 1 on the exact lattice).")
 
+add('C07',
+    "Hypothesis over survey x mapping x anisotropy x noise model x "
+    "perturbation direction; oracle: central finite differences of the "
+    "misfit of fresh simulations converge at second order to "
+    "<gradient, direction>; misfit vs the checker's own formula",
+    "Exploration: generated small stretched problems with mixed source "
+    "and receiver types (incl. source-relative and magnetic receivers, "
+    "wires, dipoles in all coordinate formats), NaN-masked observations and "
+    "all noise-parameter shapes; the adjoint-state gradient is compared "
+    "with FD of the reported misfit at steps 1e-2..1e-4 (threshold 1e-6 "
+    "|g||d|, measured ~1e-9), solver tolerance 1e-11.",
+    "Trusted: emg3d forward solves (certified separately by C01) for the "
+    "FD side; cases with a non-converged solve are inconclusive. Magnetic "
+    "sources are generated in the 3rd..3rd-last cell (supported away from "
+    "the outermost cells).")
+
 NOT_BUILT = "check not built yet (see DESIGN.md section 3 for the plan)"
 
 
